@@ -3,6 +3,7 @@
 it and passes without it), runs the property's quick check against the mutated copy and stores everything under
 /verif/seeded/<id>-<x>/.  Never touches /repo."""
 import json, os, shutil, subprocess, sys, time
+ROOT = os.path.dirname(os.path.dirname(os.path.dirname(os.path.abspath(__file__))))
 
 ENV = dict(os.environ, GOFLAGS="-mod=mod", GOPROXY="off", GOSUMDB="off", GOTOOLCHAIN="local")
 GO = "go1.26.8"
@@ -23,7 +24,7 @@ def module_of(path):
 def one(seed):
     meta = json.load(open(os.path.join(seed, "meta.json")))
     pid = meta["property"]
-    inplace = os.path.realpath(seed).startswith("/verif/seeded/")   # regression run over the stored seeds
+    inplace = os.path.realpath(seed).startswith(os.path.join(os.path.realpath(ROOT), "seeded") + "/")   # regression run over the stored seeds
     tag = os.path.basename(seed.rstrip("/")) if inplace else "%s-%s" % (pid, os.path.basename(seed.rstrip("/")))
     d = "/tmp/seedrun-%s-%d" % (tag, os.getpid())
     shutil.rmtree(d, ignore_errors=True)
@@ -85,14 +86,14 @@ def one(seed):
         # our check against the mutated copy
         t0 = time.time()
         env = dict(os.environ, VERIF_REPO=d)
-        p = subprocess.run(["/verif/check", pid, "--tier", os.environ.get("SEED_TIER", "quick")], env=env, capture_output=True, text=True)
+        p = subprocess.run([os.path.join(ROOT, "check"), pid, "--tier", os.environ.get("SEED_TIER", "quick")], env=env, capture_output=True, text=True)
         lines = [l for l in (p.stdout + p.stderr).split("\n") if l.strip()]
         res["check_exit"] = p.returncode
         res["check_output"] = lines[-4:]
         res["check_wall_s"] = round(time.time() - t0, 1)
         res["caught"] = p.returncode == 1 and any("VIOLATION property=" + pid in l for l in lines)
         # keep it
-        dst = os.path.join("/verif/seeded", tag)
+        dst = os.path.join(ROOT, "seeded", tag)
         if not inplace:
             shutil.rmtree(dst, ignore_errors=True)
             os.makedirs(dst)
